@@ -29,6 +29,8 @@ func runC15(c *Ctx) {
 	c.Rule("C15.O5", "E4", "Parse: errors ErrMessageTooLarge and ErrControlMessageTooBig pass WriteClose(1009, ...) before the return", 1)
 	c.Rule("C15.O6", "E8", "isMessageTooLarge(n) == (MessageLengthLimit > 0 && n > MessageLengthLimit)", 1)
 	c.Rule("C15.O7", "E5", "inside the package control frames are sent through WriteMessage, the path that refuses payloads over 125 bytes: no call of WriteFrame / writeFrame with a constant control opcode elsewhere", 1)
+	c.Rule("C15.O8", "E6", "the pre-check's sum (assembled so far + declared length) cannot wrap: the declared length is a peer-chosen 63-bit value, so the sum is tested for < 0 (or the length bounded) before it is compared with the limit", 1)
+	c15SumNoWrap(c)
 	c15ControlSenders(c)
 
 	const limit = "websocket.commonFields.MessageLengthLimit"
@@ -390,4 +392,95 @@ func c15ControlSenders(c *Ctx) {
 		}
 	}
 	c.Cond(bad == "", "C15.O7", "control frames are sent through WriteMessage", "", fmt.Sprintf("%d frame-writer call site(s), none with a constant control opcode outside WriteMessage", n), bad)
+}
+
+// c15SumNoWrap: O8.
+func c15SumNoWrap(c *Ctx) {
+	nf := c.Fn("C15.O8", "(*websocket.Conn).nextFrame")
+	if nf == nil {
+		return
+	}
+	fi := c.P.Info(nf)
+	bad := "the pre-check (isMessageTooLarge on assembled + declared) was not found in nextFrame"
+	for _, cs := range c.P.CallsNamed(nf, "(*websocket.Conn).isMessageTooLarge") {
+		arg := cs.Common.Args[1]
+		for {
+			cv, ok := arg.(*ssa.Convert)
+			if !ok {
+				break
+			}
+			arg = cv.X
+		}
+		sum, ok := arg.(*ssa.BinOp)
+		if !ok || sum.Op != token.ADD {
+			continue
+		}
+		bad = ""
+		lo, _ := fi.IntervalAt(cs.In, sum)
+		// or: both operands bounded above by dominating facts
+		_, hx := fi.IntervalAt(cs.In, sum.X)
+		_, hy := fi.IntervalAt(cs.In, sum.Y)
+		bounded := func(v ssa.Value, hi int64) bool {
+			if hi < 1<<62 {
+				return true
+			}
+			for {
+				cv, ok := v.(*ssa.Convert)
+				if !ok {
+					break
+				}
+				v = cv.X
+			}
+			_, isLen := ir.IsLenOf(ir.Resolve(v))
+			if ph, isPhi := ir.Resolve(v).(*ssa.Phi); isPhi {
+				isLen = true
+				for _, e := range ph.Edges {
+					r := ir.Resolve(e)
+					for {
+						cv, ok := r.(*ssa.Convert)
+						if !ok {
+							break
+						}
+						r = ir.Resolve(cv.X)
+					}
+					if _, l := ir.IsLenOf(r); !l {
+						if k, isK := ir.ConstInt(r); !isK || k < 0 {
+							isLen = false
+						}
+					}
+				}
+			}
+			return isLen
+		}
+		// or: a dominating "y > MaxInt64 - x" test that returned
+		strip := func(v ssa.Value) ssa.Value {
+			for {
+				cv, ok := v.(*ssa.Convert)
+				if !ok {
+					return ir.Resolve(v)
+				}
+				v = cv.X
+			}
+		}
+		guarded := fi.HasFact(cs.In, func(ft ir.Fact) bool {
+			lx, ly, _, ok := lessThanFact(ft) // lx <= ly
+			if !ok {
+				return false
+			}
+			d, isD := ir.Resolve(ly).(*ssa.BinOp)
+			if !isD || d.Op != token.SUB {
+				return false
+			}
+			k, isK := ir.ConstInt(d.X)
+			if !isK || k < 1<<62 {
+				return false
+			}
+			a, b := strip(lx), strip(d.Y)
+			return (a == strip(sum.X) && b == strip(sum.Y)) || (a == strip(sum.Y) && b == strip(sum.X))
+		})
+		if lo < 0 && !guarded && !(bounded(sum.X, hx) && bounded(sum.Y, hy)) {
+			bad = "the sum compared with the message limit at " + c.Pos(cs.In) + " (" + c.P.Desc(sum) + ") can wrap: the declared length is any 63-bit value the peer chooses, and behind a first fragment a length close to the maximum makes the sum negative, so the limit test passes and the frame is waited for (input buffered up to the read limit) or the slice expression panics"
+		}
+	}
+	c.Cond(bad == "", "C15.O8", fnKey(c.P, nf, "pre-check sum cannot wrap"), c.FnPos(nf), "sum tested for < 0 (or operands bounded) before the limit test", bad)
 }
